@@ -38,7 +38,7 @@ for d in sorted(glob.glob(os.path.join(VERIF, "seeded", "*"))):
         rows.append((name, "PATCH-DOES-NOT-APPLY", a.stderr.strip()[:200])); sh("git -C /repo checkout -- . ; git -C /repo reset -q"); continue
     try:
         for c in checks:
-            r = sh(f"./check {c}", cwd=VERIF)
+            r = sh(f"VERIF_NO_EVIDENCE=1 ./check {c}", cwd=VERIF)
             lines = [l for l in r.stdout.splitlines() if l.startswith("VIOLATION")]
             rows.append((name, c, "CAUGHT" if r.returncode != 0 and lines else "MISSED", lines[0][:160] if lines else ""))
     finally:
